@@ -422,4 +422,58 @@ PROPS["C18"] = dict(
     design_ref="6 C18",
 )
 
+CONC_TB = ["the Conc model abstracts memtables, tables and the journal file to 'the list of applied versioned entries' and 'the list of journaled writes'; flush / compaction / keyspace creation appear only "
+           "as version registrations (draw a seqno, advance the shared visible seqno); their content-neutrality is C01's theorem",
+           "atomicity of the modelled steps: seqno generator next(), visible-seqno fetch_max, write-floor store/load, one memtable insert, mutex acquire/release are taken as atomic (std atomics, crossbeam skiplist, std Mutex)",
+           "pause points (cfg fjall_verif) make the schedule an input at the granularity of the model's steps; interleavings *inside* lsm-tree calls (a memtable insert, a version registration) are not controlled",
+           "OS scheduling fairness is not modelled (liveness is not claimed beyond the lock discipline)"]
+PROPS["C06"] = dict(
+    title="A committed batch becomes visible to readers atomically",
+    modules=["FjallModel.Props.C06"],
+    theorems=["Fjall.Conc.c06_atomic", "Fjall.Conc.c06_commit_order", "Fjall.Conc.c06_view_below_inflight", "Fjall.Conc.c06_unrepaired_counterexample"],
+    statements={
+        "c06_atomic": "forall thread programs (writes of any number of items over any keyspaces, snapshot opens, reads through views, latest reads, version registrations, rotations) and "
+                      "forall schedules: every read through a view with instant i returns the value of the state in which exactly the writes with seqno < i are applied, each entirely",
+        "c06_commit_order": "journal order = seqno order (strictly increasing), so a view that sees a write sees every write committed before it",
+        "c06_view_below_inflight": "in every reachable state every view's instant is at most the seqno of the write holding the journal lock and at most the seqno generator",
+        "c06_unrepaired_counterexample": "with open() handing out the raw counter (code before the fix of finding F6) a 13-step schedule violates atomic visibility (closed term, by decide)",
+    },
+    engines=[dict(bin="conc", cases_quick=480, cases_thorough=12000, profiles=["release"], profiles_thorough=["release", "dev"])],
+    rule="case = 1-3 writer threads (inserts, removes, multi-item multi-keyspace batches, latest reads, memtable rotations) + 1-2 reader threads (snapshot; 2-4 reads through it; again) as real "
+         "threads parked at pause points (journal lock taken, write floor set, seqno drawn, after each item, published, unlocked; counter loaded inside open()), released one step at a time "
+         "by a controller following a random schedule, with version registrations (compactions of a side keyspace) in between and block probes (a thread released into a held journal lock "
+         "must not get past it); after every step counter / visible seqno / write floor / snapshot instants / read results are compared with the Lean model run on the same schedule; "
+         "implementation-only oracle: every snapshot read equals 'all writes with seqno below the instant, each entirely', final content equals the acknowledged writes in seqno order. "
+         "non-trivial = another thread acted while a writer was between seqno draw and publish, and at least one read went through a snapshot",
+    trusted_base=CONC_TB,
+    assumptions=["a batch names each key of a keyspace at most once", "Keyspace::clear is not an MVCC operation and is outside this property's model"],
+    level_text="Lean 4 theorem over all programs and schedules of a small-step model at lock / atomic granularity (inductive invariant: views never exceed the seqno in flight); tied to the real "
+               "crate by driving real threads through the same schedules via pause points",
+    level_note="partial: interleavings inside lsm-tree calls and OS-level preemption between pause points are exercised by the thorough tier's free-running soak only",
+    technique="Lean 4 proof (inductive invariant over interleavings) + schedule-controlled differential correspondence + implementation-only atomicity oracle",
+    design_ref="6 C06",
+)
+PROPS["C14"] = dict(
+    title="Concurrent single operations are linearizable and no write is lost",
+    modules=["FjallModel.Props.C14"],
+    theorems=["Fjall.Conc.c14_linearizable", "Fjall.Conc.c14_real_time", "Fjall.Conc.c14_orders_agree", "Fjall.Conc.c14_final_content"],
+    statements={
+        "c14_linearizable": "forall programs and schedules: replaying the linearization points (a write at its memtable apply inside the journal critical section, a latest read at its read) in "
+                            "history order against a sequential map reproduces the result of every read",
+        "c14_real_time": "calls and returns of a thread alternate and every linearization point lies between its operation's call and return, so the linearization order extends real-time order",
+        "c14_orders_agree": "seqno order = journal order (strict) = memtable apply order (non-decreasing)",
+        "c14_final_content": "whenever no write is in flight the memtables hold exactly the items of all journaled (= acknowledged) writes, each entirely, in seqno order",
+    },
+    engines=[dict(bin="conc", cases_quick=480, cases_thorough=12000, profiles=["release"], profiles_thorough=["release", "dev"])],
+    rule="as C06; additionally every Keyspace::get result is compared with the model at its linearization point, block probes check that insert / remove / batch commit / rotate_memtable "
+         "cannot enter the journal critical section while another thread is inside, and the final content of every key is compared with 'acknowledged writes in seqno order'",
+    trusted_base=CONC_TB,
+    assumptions=["the write-stall clause (writers proceed eventually) is reduced to the lock discipline: stalled writers wait outside the journal lock; scheduler fairness is not modelled"],
+    level_text="Lean 4 theorems over all programs and schedules (linearization by forward simulation with explicit linearization points, bracket discipline of the history, order agreement); "
+               "tied to the real crate by schedule-controlled runs of real threads",
+    level_note="partial: journal rotation and flush content are covered sequentially (C01/C04/C10); liveness under the write stall is not a theorem",
+    technique="Lean 4 proof (forward simulation to a sequential map, history invariants) + schedule-controlled differential correspondence",
+    design_ref="6 C14",
+)
+
 ALL_IDS = [f"C{i:02d}" for i in range(1, 19)]
